@@ -202,10 +202,11 @@ def run(ctx: core.Ctx):
         for depth, m in cases[:6]:
             CatSession.MAPPING = m
             sess = CatSession()
-            got = ask(loop, sess, "SELECT table_schema, table_name, column_name, ordinal_position FROM information_schema.columns")
+            # (the key of a column includes its catalog: a depth-4 mapping may declare db.t.c in two catalogs)
+            got = ask(loop, sess, "SELECT table_catalog, table_schema, table_name, column_name, ordinal_position FROM information_schema.columns")
             cols = msch.mapping_to_columns(m)
-            declared = [(c.schema, c.table, c.name) for c in cols]
-            listed = [(r[0], r[1], r[2]) for r in got[1] if r[0] not in INFO_SCHEMA] if got[0] == "Ok" else None
+            declared = [(c.catalog, c.schema, c.table, c.name) for c in cols]
+            listed = [(r[0], r[1], r[2], r[3]) for r in got[1] if r[1] not in INFO_SCHEMA] if got[0] == "Ok" else None
             if listed is None or sorted(listed) != sorted(declared) or len(set(listed)) != len(listed):
                 witness = witness or dict(kind="information_schema.columns", mapping=repr(m), listed=repr(listed)[:300], declared=repr(declared)[:300])
     finally:
